@@ -360,6 +360,33 @@ func ZZ_C18_send_request() {
 	}
 }
 
+// ZZ_C18_send_request_deadline: the time-out of sendBatchRequest covers the whole call - the wait for
+// the send loop to take the entry and the wait for the response together. The send loop takes the
+// entry after a queueing delay (virtual clock; 0, a third, or all but a millisecond of the time-out)
+// and never answers; the call must be back, with an error and the entry marked cancelled, no later
+// than its time-out after it began.
+func ZZ_C18_send_request_deadline() {
+	zzSchedule(zzParam("sched", 2))
+	bc := newBatchConn(1, 8, new(uint32))
+	bc.batchCommandsCh = make(chan *batchCommandsEntry) // unbuffered: the enqueue waits for the loop
+	timeout := time.Second
+	delay := []time.Duration{0, 300 * time.Millisecond, 999 * time.Millisecond}[zzChoice("queue-delay", 3)]
+	var seen *batchCommandsEntry
+	go func() {
+		time.Sleep(delay)
+		seen = <-bc.batchCommandsCh // taken, never answered
+	}()
+	start := time.Now()
+	req := &tikvpb.BatchCommandsRequest_Request{}
+	resp, err := sendBatchRequest(context.Background(), "t", "", bc, nil, req, timeout, 0)
+	elapsed := time.Since(start)
+	zzAssert(resp == nil && err != nil, "deadline.unanswered-call-fails")
+	zzAssert(elapsed <= timeout, "deadline.returns-within-its-time-out")
+	if seen != nil {
+		zzAssert(seen.isCanceled(), "deadline.abandoned-entry-marked-cancelled")
+	}
+}
+
 // ZZ_C18_cancel_before_send: a caller gives up after its entry was built into a batch and before
 // the batch is sent and registered (the window is open while the stream is being established).
 // Whatever send does with such an entry, every id that goes out on the stream is registered to the
